@@ -214,17 +214,17 @@ class _MetaPyTree(type):
     def __getitem__(cls, item):
         if isinstance(item, tuple):
             if len(item) == 2:
+                if not isinstance(item[1], str):
+                    raise ValueError(
+                        "The structure annotation `struct` in "
+                        "`jaxtyping.PyTree[leaftype, struct]` must be be a string, "
+                        f"e.g. `jaxtyping.PyTree[leaftype, 'T']`. Got '{item[1]}'."
+                    )
 
                 class X(PyTree):
                     leaftype = item[0]
                     structure = item[1].strip()
 
-                if not isinstance(X.structure, str):
-                    raise ValueError(
-                        "The structure annotation `struct` in "
-                        "`jaxtyping.PyTree[leaftype, struct]` must be be a string, "
-                        f"e.g. `jaxtyping.PyTree[leaftype, 'T']`. Got '{X.structure}'."
-                    )
                 pieces = X.structure.split()
                 if len(pieces) == 0:
                     raise ValueError(
